@@ -223,6 +223,7 @@ struct Cfg {
     chunk: u64,
     roundtrip: bool,
     classify_refusals: bool,
+    dump_insn: bool,
 }
 
 fn die(msg: &str) -> ! {
@@ -240,6 +241,7 @@ fn read_plan(path: &str) -> (Cfg, Vec<Job>) {
         chunk: 32768,
         roundtrip: true,
         classify_refusals: true,
+        dump_insn: false,
     };
     let names: HashMap<&str, usize> = gentab::METHODS.iter().enumerate().map(|(i, m)| (m.name, i)).collect();
     let mut jobs = Vec::new();
@@ -255,6 +257,7 @@ fn read_plan(path: &str) -> (Cfg, Vec<Job>) {
             Some("chunk") => cfg.chunk = w.next().unwrap().parse().unwrap(),
             Some("roundtrip") => cfg.roundtrip = w.next().unwrap() == "1",
             Some("classify_refusals") => cfg.classify_refusals = w.next().unwrap() == "1",
+            Some("dump_insn") => cfg.dump_insn = w.next().unwrap() == "1",
             Some("job") => {
                 let name = w.next().unwrap();
                 let nd: usize = w.next().unwrap().parse().unwrap();
@@ -506,6 +509,7 @@ struct Shared {
     asm_lines: u64,
     dis_lines: u64,
     llvm_runs: u64,
+    insn_lines: Vec<String>,
 }
 
 fn add_finding(map: &mut BTreeMap<String, Finding>, key: String, ex: Example) {
@@ -604,6 +608,7 @@ struct Seg {
 fn process_chunk(cfg: &Cfg, jobs: &[Job], segs: &[Seg], tid: usize, shared: &Mutex<Shared>, baselines: &[Option<u32>]) {
     let mut ops_all: Vec<i64> = Vec::new();
     let mut cm: Vec<usize> = Vec::new(); // method of case
+    let mut cj: Vec<usize> = Vec::new(); // job of case
     let mut coff: Vec<usize> = Vec::new(); // offset of the operands of case
     let mut outs: Vec<Out> = Vec::new();
     let mut bytes_all: Vec<Vec<u8>> = Vec::new();
@@ -622,6 +627,7 @@ fn process_chunk(cfg: &Cfg, jobs: &[Job], segs: &[Seg], tid: usize, shared: &Mut
             }
             let r = catch_unwind(AssertUnwindSafe(|| (m.call)(&tmp)));
             cm.push(job.method);
+            cj.push(sg.ji);
             coff.push(ops_all.len());
             ops_all.extend_from_slice(&tmp);
             match r {
@@ -762,6 +768,24 @@ fn process_chunk(cfg: &Cfg, jobs: &[Job], segs: &[Seg], tid: usize, shared: &Mut
         expected: texts[i].clone(),
         llvm,
     };
+    // which operand slot is to blame: the first slot whose replacement by the first value of its domain
+    // (by convention a plain, encodable value) makes the predicate hold
+    let blame = |i: usize, good: &dyn Fn(&[i64]) -> bool| -> String {
+        let o = ops(i);
+        let mut t = o.to_vec();
+        for k in 0..o.len() {
+            let v0 = jobs[cj[i]].dims[k][0];
+            if t[k] == v0 {
+                continue;
+            }
+            t[k] = v0;
+            if good(&t) {
+                return format!("-arg{}", k);
+            }
+            t[k] = o[k];
+        }
+        "-several".to_string()
+    };
     for i in 0..ncases {
         let m = meth(i);
         let st = stats.entry(cm[i]).or_default();
@@ -781,7 +805,8 @@ fn process_chunk(cfg: &Cfg, jobs: &[Job], segs: &[Seg], tid: usize, shared: &Mut
                     if has_special(m, ops(i)) {
                         st.api_restricted += 1;
                     } else {
-                        findings.push((format!("c08:{}:refuses-encodable", m.name), mk(i, format!("{:08x}", w))));
+                        let b = blame(i, &|t: &[i64]| catch_unwind(AssertUnwindSafe(|| (m.call)(t))).is_ok());
+                        findings.push((format!("c08:{}:refuses-encodable{}", m.name, b), mk(i, format!("{:08x}", w))));
                     }
                 }
             },
@@ -798,7 +823,7 @@ fn process_chunk(cfg: &Cfg, jobs: &[Job], segs: &[Seg], tid: usize, shared: &Mut
                 }
                 match a {
                     None => findings.push((
-                        format!("c08:{}:accepts-unencodable", m.name),
+                        format!("c08:{}:accepts-unencodable{}", m.name, blame(i, &|t: &[i64]| (m.valid)(t))),
                         mk(i, "operand value outside the encodable range (spec predicate)".to_string()),
                     )),
                     Some(AsmRes::Err(msg)) => {
@@ -929,11 +954,71 @@ fn process_chunk(cfg: &Cfg, jobs: &[Job], segs: &[Seg], tid: usize, shared: &Mut
     }
 
     tp = prof(5, tp);
+    // optional dump of every single-instruction case (input of the Dora twin comparison), with the words
+    // of the declared equivalent texts
+    let mut dump: Vec<String> = Vec::new();
+    let mut alt_words: Vec<Vec<u32>> = vec![Vec::new(); if cfg.dump_insn { ncases } else { 0 }];
+    if cfg.dump_insn {
+        let mut round = 0;
+        loop {
+            let mut t = String::new();
+            let mut sent: Vec<usize> = Vec::new();
+            for i in 0..ncases {
+                if !valid[i] {
+                    continue;
+                }
+                if let Some(alt) = meth(i).alts.get(round) {
+                    let mut s = String::new();
+                    alt(ops(i), &mut s);
+                    t.push_str(&s);
+                    t.push('\n');
+                    sent.push(i);
+                }
+            }
+            if sent.is_empty() {
+                break;
+            }
+            let r = assemble(cfg, &asm_path, &t, sent.len());
+            for (k, &i) in sent.iter().enumerate() {
+                if let AsmRes::Enc(w, _, _) = &r.res[k] {
+                    alt_words[i].push(*w);
+                }
+            }
+            round += 1;
+        }
+    }
+    if cfg.dump_insn {
+        for i in 0..ncases {
+            let mut l = String::new();
+            let _ = write!(l, "{}\t{}\t", cj[i], meth(i).name);
+            for (k, v) in ops(i).iter().enumerate() {
+                if k > 0 { l.push(' '); }
+                let _ = write!(l, "{}", v);
+            }
+            match outs[i] {
+                Out::Word(w) => { let _ = write!(l, "\t{:08x}", w); }
+                Out::Refused => l.push_str("\tREFUSED"),
+                Out::Len(n) => { let _ = write!(l, "\tLEN{}", n); }
+            }
+            match asm_of[i].map(|k| &asm.res[k]) {
+                Some(AsmRes::Enc(w, _, _)) => { let _ = write!(l, "\t{:08x}", w); }
+                Some(AsmRes::Err(_)) => l.push_str("\tERR"),
+                None => l.push_str("\t-"),
+            }
+            l.push('\t');
+            for (k, w) in alt_words[i].iter().enumerate() {
+                if k > 0 { l.push(','); }
+                let _ = write!(l, "{:08x}", w);
+            }
+            dump.push(l);
+        }
+    }
     // merge
     let mut sh = shared.lock().unwrap();
     sh.asm_lines += asm_idx.len() as u64 + rt_asm;
     sh.dis_lines += words.len() as u64;
     sh.llvm_runs += 3;
+    sh.insn_lines.extend(dump);
     for (mi, st) in stats {
         add_stats(&mut sh.stats[mi], st);
     }
@@ -1052,7 +1137,7 @@ fn main() {
         }
     }
     let baselines: Arc<Vec<Option<u32>>> = Arc::new(stats.iter().map(|t| t.baseline).collect());
-    let shared = Arc::new(Mutex::new(Shared { stats, findings: BTreeMap::new(), seq_lines: Vec::new(), asm_lines: 0, dis_lines: 0, llvm_runs: 0 }));
+    let shared = Arc::new(Mutex::new(Shared { stats, findings: BTreeMap::new(), seq_lines: Vec::new(), asm_lines: 0, dis_lines: 0, llvm_runs: 0, insn_lines: Vec::new() }));
     let next = Arc::new(AtomicUsize::new(0));
     let work = Arc::new(work);
     let mut hs = Vec::new();
@@ -1108,6 +1193,12 @@ fn main() {
     }
     let _ = write!(o, "\n}},\n\"asm_lines\":{},\"dis_lines\":{},\"llvm_runs\":{},\"seq_cases\":{}\n}}\n", sh.asm_lines, sh.dis_lines, sh.llvm_runs, sh.seq_lines.len());
     std::fs::write(&args[3], o).unwrap_or_else(|e| die(&format!("write report: {}", e)));
+    if cfg.dump_insn {
+        let mut f = std::io::BufWriter::new(std::fs::File::create(format!("{}.insn", args[3])).unwrap_or_else(|e| die(&format!("{}", e))));
+        for l in sh.insn_lines.iter() {
+            let _ = writeln!(f, "{}", l);
+        }
+    }
     let mut f = std::io::BufWriter::new(std::fs::File::create(format!("{}.seq", args[3])).unwrap_or_else(|e| die(&format!("{}", e))));
     for l in sh.seq_lines.iter() {
         let _ = writeln!(f, "{}", l);
